@@ -83,6 +83,20 @@ theorem decl_local_if_blockwise (fuel : Nat) (br : List (Expr × List Stmt)) (el
   | zero => simp only [stmtS]; exact StackLE.refl _
   | succ f => simp only [stmtS]; exact (leInv f).ifs br els st
 
+/-- CASE <value> WHEN …: as IF -/
+theorem decl_local_case_blockwise (fuel : Nat) (e : Expr) (br : List (Expr × List Stmt)) (els : List Stmt) (rv : Option SVal) (st : St) :
+    StackLE (stmtI fuel (.caseOf e br els) rv st).st.blocks st.blocks := by
+  rw [(stmt_refines fuel _ rv st).1]
+  cases fuel with
+  | zero => simp only [stmtS]; exact StackLE.refl _
+  | succ f =>
+    simp only [stmtS]
+    have h1 := (leInv f).eval e st
+    generalize evalS f e st = r at h1 ⊢
+    rcases r with ⟨_ | v, st1⟩
+    · exact h1
+    · exact ((leInv f).cs v br els st1).trans h1
+
 theorem decl_local_while_blockwise (fuel : Nat) (c : Expr) (body : List Stmt) (rv : Option SVal) (st : St) :
     StackLE (stmtI fuel (.while c body) rv st).st.blocks st.blocks := by
   rw [(stmt_refines fuel _ rv st).1]
@@ -200,6 +214,32 @@ theorem cursor_op_touches_innermost_only (op : CurOp) (c x : Nat) (v : SVal) (b 
             exact getVar_setVar_other (Ne.symm hx) hr'
           · cases h2
 
+/-- ExecuteAggregate: EVERY invocation of a user-defined aggregate — whatever it aggregates, also an empty group or a
+    call outside any query (`emptyPseudo`) — runs in a block of its own that declares the aggregate's cursor `c`
+    over ITS OWN values: the Go-shaped call is the reference call made in the block `{c ↦ s0}`, and a cursor
+    operation on `c` there never reads or moves a cursor `c` of the caller -/
+theorem aggregate_call_declares_own_cursor (fuel : Nat) (d : FDecl) (c : Nat) (s0 : Int) (args : List SVal) (st : St) :
+    callAggI fuel d c s0 args st = callAggS fuel d c s0 args st ∧
+    (∀ (op : CurOp) (x : Nat) (bs : List Block), x ≠ c →
+      getVar c (cursorDo op c x (⟨[(c, .int s0)], []⟩ :: bs)).2.tail = getVar c bs) :=
+  ⟨(refInv fuel).callAgg d c s0 args st,
+   fun op x bs hx => cursor_op_touches_innermost_only op c x (.int s0) ⟨[(c, .int s0)], []⟩ bs (by simp [aget]) hx⟩
+
+/-- an aggregate whose body fetches once from its cursor and returns what it got: with a non-empty group the first
+    value of ITS group, with NOTHING to aggregate its own argument — never a row of the caller's cursor of the same
+    name, which (like the whole stack of the caller) is exactly as before -/
+theorem aggregate_fetches_own_values (c x : Nat) (s0 : Int) (a : SVal) (k : Nat) (st : St) (hx : x ≠ c) (h0 : 0 ≤ s0) :
+    callAggI (k + 5) ⟨[⟨x, none⟩], [.cursor .fetch c x, .ret (.var x)], some c⟩ c s0 [a] st =
+      (.ok (if s0 % 10 < (s0 / 10) % 10 then .int s0 else a), st) := by
+  obtain ⟨blocks, out⟩ := st
+  have hs : ¬ s0 < 0 := by omega
+  have hxc : ¬ c = x := fun h => hx h.symm
+  by_cases hc : s0 % 10 < (s0 / 10) % 10
+  · simp [callAggI, bindParamsI, executeI, stmtI, evalI, checkArgsLen, numDefaults, St.push, St.pop,
+      declareVar, setVar, getVar, aget, aset, PRes.ok, Block.empty, cursorDo, curStep, hs, hc, hx, hxc]
+  · simp [callAggI, bindParamsI, executeI, stmtI, evalI, checkArgsLen, numDefaults, St.push, St.pop,
+      declareVar, setVar, getVar, aget, aset, PRes.ok, Block.empty, cursorDo, curStep, hs, hc, hx, hxc]
+
 /-- any statement: only the CURRENT block can gain names; all enclosing blocks keep or lose theirs -/
 theorem decl_only_in_current_block (fuel : Nat) (s : Stmt) (rv : Option SVal) (st : St) :
     StackLE (stmtI fuel s rv st).st.blocks.tail st.blocks.tail := by
@@ -297,7 +337,7 @@ theorem params_bound_in_fresh_frame : ∀ (fuel : Nat) (ps : List Param) (args :
 
 /-- a parameter named like a variable of the caller is a different variable: the callee assigns its own -/
 theorem callee_param_does_not_alias_caller (x : Nat) (a w : SVal) (k : Nat) (st : St) :
-    callI (k + 5) ⟨[⟨x, none⟩], [.assign x (.lit w), .ret (.var x)]⟩ [a] st = (.ok w, st) := by
+    callI (k + 5) ⟨[⟨x, none⟩], [.assign x (.lit w), .ret (.var x)], none⟩ [a] st = (.ok w, st) := by
   obtain ⟨blocks, out⟩ := st
   simp [callI, bindParamsI, executeI, stmtI, evalI, checkArgsLen, numDefaults, St.push, St.pop,
     declareVar, setVar, getVar, aget, aset, PRes.ok, Block.empty]
@@ -354,6 +394,14 @@ theorem if_passes_flow_on (fuel : Nat) (c : Expr) (body : List Stmt) (more : Lis
     (ifI (fuel + 1) ((c, body) :: more) els rv st).flow = (executeI fuel body none st1.push).flow ∧
     (ifI (fuel + 1) ((c, body) :: more) els rv st).err = (executeI fuel body none st1.push).err := by
   simp only [ifI, hc, hT, and_self]
+
+/-- CASE with a value hands on whatever flow and error the chosen WHEN branch produced, like IF -/
+theorem case_passes_flow_on (fuel : Nat) (v w : SVal) (c : Expr) (body : List Stmt) (more : List (Expr × List Stmt)) (els : List Stmt)
+    (rv : Option SVal) (st st1 : St)
+    (hc : evalI fuel c st = (.ok w, st1)) (hT : caseHit v w = .T) :
+    (caseI (fuel + 1) v ((c, body) :: more) els rv st).flow = (executeI fuel body none st1.push).flow ∧
+    (caseI (fuel + 1) v ((c, body) :: more) els rv st).err = (executeI fuel body none st1.push).err := by
+  simp only [caseI, hc, hT, and_self]
 
 /-- for ALL programs: neither BREAK nor CONTINUE ever gets past the innermost enclosing WHILE statement -/
 theorem while_catches_break_continue (fuel : Nat) (c : Expr) (body : List Stmt) (rv : Option SVal) (st : St) :
@@ -679,7 +727,9 @@ theorem gen_blockHandling_reviewed : Gen.Scope.blockHandling =
    ("Processor.WhileInCursor", ["proc.NewChildProcessor", "defer childProc.Close", "for{", "childProc.ReferenceScope.ClearCurrentBlock", "if{", "len", "make", "for{", "}", "childProc.ReferenceScope.DeclareVariable", "if{", "return TerminateWithError,err", "}", "}", "FetchCursor", "if{", "return TerminateWithError,err", "}", "if{", "break", "}", "childProc.execute", "if{", "return TerminateWithError,err", "}", "switch{", "case Break", "return Terminate,nil", "case Exit", "return Exit,nil", "case Return", "return Return,nil", "}", "}", "return Terminate,nil"]),
    ("UserDefinedFunction.Execute", ["scope.CreateChild", "defer childScope.CloseCurrentBlock", "fn.execute", "return call"]),
    ("UserDefinedFunction.ExecuteAggregate", ["scope.CreateChild", "defer childScope.CloseCurrentBlock", "childScope.AddPseudoCursor", "if{", "return nil,err", "}", "fn.execute", "return call"]),
-   ("UserDefinedFunction.execute", ["len", "fn.CheckArgsLen", "if{", "return nil,err", "}", "for{", "len", "if{", "scope.Blocks[0].Variables.Add", "if{", "return nil,err", "}", "}", "else{", "Evaluate", "if{", "return nil,err", "}", "scope.DeclareVariableDirectly", "if{", "return nil,err", "}", "}", "}", "NewProcessorWithScope", "proc.execute", "if{", "return nil,err", "}", "if{", "value.NewNull", "}", "return ret,nil"])] := by decide
+   ("UserDefinedFunction.execute", ["len", "fn.CheckArgsLen", "if{", "return nil,err", "}", "for{", "len", "if{", "scope.Blocks[0].Variables.Add", "if{", "return nil,err", "}", "}", "else{", "Evaluate", "if{", "return nil,err", "}", "scope.DeclareVariableDirectly", "if{", "return nil,err", "}", "}", "}", "NewProcessorWithScope", "proc.execute", "if{", "return nil,err", "}", "if{", "value.NewNull", "}", "return ret,nil"]),
+   ("evalFunction", ["strings.ToUpper", "if{", "scope.GetFunction", "if{", "NewFunctionNotExistError", "return nil,call", "}", "if{", "evalAggregateFunction", "return call", "}", "len", "udfn.CheckArgsLen", "if{", "return nil,err", "}", "}", "if{", "JsonObject", "return call", "}", "len", "make", "for{", "Evaluate", "if{", "return nil,err", "}", "}", "if{", "Call", "return call", "}", "else{", "if{", "Now", "return call", "}", "}", "if{", "fn", "return call", "}", "udfn.Execute", "return call"]),
+   ("evalAggregateFunction", ["strings.ToUpper", "if{", "}", "else{", "scope.GetFunction", "if{", "NewFunctionNotExistError", "return nil,call", "}", "}", "if{", "len", "udfn.CheckArgsLen", "if{", "return nil,err", "}", "}", "else{", "len", "if{", "NewFunctionArgumentLengthError", "return nil,call", "}", "}", "len", "if{", "if{", "NewNotGroupingRecordsError", "return nil,call", "}", "if{", "parser.NewIntegerValue", "}", "if{", "if{", "value.IsNull", "value.IsUnknown", "scope.Records[0].IsInRange", "if{", "scope.Records[0].view.RecordSet[scope.Records[0].recordIndex].GroupLen", "int64", "value.NewInteger", "return call,nil", "}", "else{", "value.NewInteger", "return call,nil", "}", "}", "}", "scope.Records[0].IsInRange", "if{", "NewViewFromGroupedRecord", "if{", "return nil,err", "}", "expr.IsDistinct", "view.ListValuesForAggregateFunctions", "if{", "return nil,err", "}", "}", "}", "if{", "len", "make", "for{", "Evaluate", "if{", "return nil,err", "}", "}", "udfn.ExecuteAggregate", "return call", "}", "aggfn", "return call,nil"])] := by decide
 
 /-- ExecuteStatement hands IF / CASE / WHILE / WHILE IN to the block-opening handlers, SOURCE / EXECUTE / EXECUTE
     prepared to proc.execute (same processor, current block), and every declaration / disposal / cursor statement
@@ -812,18 +862,39 @@ example : execImpl 200 [
       .print (.call 0 []), .print (.var 100)]
     = ⟨[.null, .int 3], .err .undeclaredVar, [[]]⟩ := by decide
 
-/-- cursor 200 over the rows 0,1,2 open in the outer block and one row fetched; an inner block declares its own
-    cursor 200 (rows 10,11,12), fetches from it while it is still closed: "cursor is closed", the outer one untouched -/
-example : execImpl 100 [.decl 0 (i 9), .decl 200 (i (-1)), .cursor .open 200 0, .cursor .fetch 200 0, .print (.var 0),
-      .ifs [(tt, [.decl 200 (i (-11)), .cursor .fetch 200 0, .print (.var 0)])] []]
-    = ⟨[.int 0], .err .cursorClosed, [[(200, .int 1), (0, .int 0)]]⟩ := by decide
+/-- cursor 200 over the rows 30,31,32 open in the outer block and one row fetched; an inner block declares its own
+    cursor 200 (rows 130,131,132), fetches from it while it is still closed: "cursor is closed", the outer one untouched -/
+example : execImpl 100 [.decl 0 (i 9), .decl 200 (i (-31)), .cursor .open 200 0, .cursor .fetch 200 0, .print (.var 0),
+      .ifs [(tt, [.decl 200 (i (-131)), .cursor .fetch 200 0, .print (.var 0)])] []]
+    = ⟨[.int 30], .err .cursorClosed, [[(200, .int 31), (0, .int 30)]]⟩ := by decide
 
 /-- the inner cursor opened, two rows fetched, closed; after the block the outer cursor continues where it was -/
-example : (execImpl 100 [.decl 0 (i 9), .decl 200 (i (-1)), .cursor .open 200 0, .cursor .fetch 200 0,
-      .ifs [(tt, [.decl 200 (i (-11)), .cursor .open 200 0, .cursor .fetch 200 0, .cursor .fetch 200 0, .print (.var 0),
+example : (execImpl 100 [.decl 0 (i 9), .decl 200 (i (-31)), .cursor .open 200 0, .cursor .fetch 200 0,
+      .ifs [(tt, [.decl 200 (i (-131)), .cursor .open 200 0, .cursor .fetch 200 0, .cursor .fetch 200 0, .print (.var 0),
         .cursor .close 200 0])] [],
       .cursor .fetch 200 0, .print (.var 0), .cursor .fetch 200 0, .cursor .fetch 200 0, .cursor .fetch 200 0, .print (.var 0)]).out
-    = [.int 11, .int 1, .int 2] := by decide
+    = [.int 131, .int 31, .int 32] := by decide
+
+/-- DECLARE ag (10) AGGREGATE (cursor 200, @v1); the caller has its own open cursor 200 over 30,31,32.
+    PRINT ag(0, 7) — outside any query: nothing to aggregate, the body's FETCH finds the invocation's own (empty)
+    cursor and leaves @v0 as it was; (SELECT ag(…, 7) FROM …) over the two values 1020, 1021 fetches 1020;
+    afterwards the caller's cursor still delivers its first row -/
+example : (execImpl 200 [.decl 0 (i 5), .decl 200 (i (-31)), .cursor .open 200 0,
+      .declAgg 10 200 [⟨1, none⟩] [.decl 0 (i (-1)), .cursor .fetch 200 0, .ret (.bin .add (.var 0) (.var 1))],
+      .print (.call 10 [i 0, i 7]), .print (.acall 10 1020 [i 7]), .print (.acall 10 1000 [i 7]),
+      .cursor .fetch 200 0, .print (.var 0)]).out
+    = [.int 6, .int 1027, .int 6, .int 30] := by decide
+
+/-- CASE @v0 WHEN 1 THEN … WHEN 2 THEN VAR @v1 := 7; PRINT @v1; ELSE … END CASE: the value once, the first equal
+    branch in a block of its own (a NULL value equals nothing: ELSE); EXIT 1 and TRIGGER ERROR end the procedure
+    with an error — nothing is committed -/
+example : execImpl 100 [.decl 0 (i 2),
+      .caseOf (.var 0) [(i 1, [.print (i 1)]), (i 2, [.decl 1 (i 7), .print (.var 1)])] [.print (i 9)],
+      .caseOf (.lit .null) [(.lit .null, [.print (i 1)])] [.print (i 9)],
+      .ifs [(tt, [.raise true])] [], .print (.var 1)]
+    = ⟨[.int 7, .int 9], .err .forcedExit, [[(0, .int 2)]]⟩ := by decide
+example : (executeI 100 [.raise false] none St.init).commits = false ∧ (executeI 100 [.exit] none St.init).commits = false ∧
+    (executeI 100 [.print (i 1)] none St.init).commits = true := by decide
 
 /-- a function declared in a block is gone after it -/
 example : (execImpl 100 [.ifs [(tt, [.declFn 0 [] [.ret (i 1)], .print (.call 0 [])])] [], .print (.call 0 [])])
